@@ -267,3 +267,33 @@ func (r *Report) finish(verifDir, tier string, seed int, start time.Time, extra 
 	fmt.Printf("VIOLATION property=%s replay=%s\n", r.Property, rp)
 	return 1
 }
+
+// borrow runs a rule set written for another property and files its obligations under
+// this property's prefix (the clause is a necessary condition of both properties).
+func (r *Report) borrow(from, to string, run func()) {
+	saved := len(r.Obl)
+	nfl := len(r.Floors)
+	have := map[string]bool{}
+	for _, id := range r.ruleOrder {
+		have[id] = true
+	}
+	run()
+	for i := saved; i < len(r.Obl); i++ {
+		if strings.HasPrefix(r.Obl[i].Rule, from+".") {
+			r.Obl[i].Rule = to + strings.TrimPrefix(r.Obl[i].Rule, from)
+		}
+	}
+	for i, id := range r.ruleOrder {
+		if !have[id] && strings.HasPrefix(id, from+".") {
+			nid := to + strings.TrimPrefix(id, from)
+			r.Rules[nid] = r.Rules[id]
+			delete(r.Rules, id)
+			r.ruleOrder[i] = nid
+		}
+	}
+	for i := range r.Floors {
+		if i >= nfl && strings.HasPrefix(r.Floors[i].rule, from+".") {
+			r.Floors[i].rule = to + strings.TrimPrefix(r.Floors[i].rule, from)
+		}
+	}
+}
